@@ -292,7 +292,12 @@ impl<'a> IRCodeGen<'a> {
                     .flatten()
                     .collect::<Vec<_>>();
                 (
-                    [code, branches.iter().map(|_| IR::End).collect()].concat(),
+                    [
+                        vec![IR::Define(out)],
+                        code,
+                        branches.iter().map(|_| IR::End).collect(),
+                    ]
+                    .concat(),
                     out,
                 )
             }
@@ -313,7 +318,7 @@ impl<'a> IRCodeGen<'a> {
                         let cmp = self.var();
                         [
                             if let Some(var) = variable {
-                                vec![IR::Assign(Var(*var), value)]
+                                vec![IR::Define(Var(*var)), IR::Assign(Var(*var), value)]
                             } else {
                                 Vec::new()
                             },
@@ -342,6 +347,7 @@ impl<'a> IRCodeGen<'a> {
                     [
                         cops,
                         vec![
+                            IR::Define(out),
                             IR::Int(tag_index, 1),
                             IR::Index(tag, c, tag_index),
                             IR::Int(value_index, 2),
